@@ -111,7 +111,9 @@ let op_cw_create a =
     | None -> (CwoCompileErr, DNil)
     | Some it ->
       let obj = cw_eval_body it.cwi_body DNil in
-      (match str a "exp" "ok" with
+      (* the fixture knows exactly one template; importing anything else fails at commit *)
+      let unknown_import = List.exists (function CwImport t -> not (cw_beq t (cwb "cwtmpl")) | _ -> false) it.cwi_body in
+      (match (if unknown_import then "commit" else str a "exp" "ok") with
        | "commit" -> (CwoCommitErr, obj)
        | "eval" -> (CwoEvalErr, obj)
        | _ ->
